@@ -571,7 +571,20 @@ func (sc *SubCache[EntityT, ExcerptT, CacheT]) MergeAll(remote string) <-chan en
 				sc.excerpts[result.Id] = sc.makeExcerpt(cached)
 				// might as well keep them in memory
 				sc.cached[result.Id] = cached
+				sc.lru.Add(result.Id)
 				sc.mu.Unlock()
+
+				// the search index has to follow what was merged
+				index, err := sc.repo.GetIndex(sc.namespace)
+				if err == nil {
+					err = index.IndexOne(result.Id.String(), sc.makeIndexData(cached))
+				}
+				if err != nil {
+					out <- entity.NewMergeError(err, result.Id)
+					return
+				}
+
+				sc.evictIfNeeded()
 			}
 		}
 
